@@ -1,7 +1,7 @@
 """C12 Condition estimate is a valid one-sided bound; growth factor matches factors  —  R3 (driver cond group, ?gscon), structural rules (?PivotGrowth), R9."""
 from ..facts import Program
 from ..run import Check, AnalysisBroken
-from ..rules import cond, r9_sibling, kernels
+from ..rules import cond, r9_sibling, kernels, reentry
 from ..rules.effects import PathEffects
 from . import _drv, _gssvx, _expert
 
@@ -37,6 +37,9 @@ def run(tier):
             n2 += cond.gscon_oracle(chk, 'C12.D2', prog, eff, p, cfgname)
             cond.pivotgrowth_rules(chk, 'C12.D3', prog, p, cfgname)
         kernels.run_basic(chk, 'C12.kern', prog, cfgname, ('trsv',), floor_scratch=4)
+        chk.clause('C12.lacon', 'reverse-communication state of ?lacon2 written before read on every call history')
+        for p in _drv.PRECS:
+            reentry.run(chk, 'C12.lacon', prog, p, cfgname)
         if n < 4 * 100 or n2 < 4 * 9:
             raise AnalysisBroken('C12: %d driver leaves, %d gscon leaves; floors 400, 36' % (n, n2))
         if cfgname == 'tested':
